@@ -14,6 +14,7 @@ import Mathlib.Algebra.Order.Field.Basic
 import Mathlib.Algebra.BigOperators.Group.Finset.Basic
 import Mathlib.Algebra.BigOperators.Intervals
 import Mathlib.Algebra.BigOperators.Field
+import Mathlib.Algebra.Order.BigOperators.Group.Finset
 
 set_option linter.unusedSectionVars false
 set_option linter.unusedVariables false
@@ -606,6 +607,458 @@ theorem vflux_reference (rest : List Nat) (J u : Nat → α) (hu : sumOver (0 ::
   rw [sumOver_cons] at h
   linarith
 
+/-! ### the order of the shift and the clamp (round-4 strengthening)
+
+`setup_bounds` above: for every built value, every element count and every minimum composition, the value after
+the first `setup` is ≥ minComposition.  The merged single `np.where` loses exactly the window (min, (n+1)·min). -/
+
+/-- for every initial value and every n: after `setup` the value is at least the minimum composition -/
+theorem setup_ge_min (cfg : Cfg α) (built : State α) (s s' : MState α) (hs : s.isSetup = false)
+    (h : setup cfg built s = .ok s') (e i : Nat) : cfg.minC ≤ s'.x e i :=
+  (setup_bounds cfg built s s' hs h e i).1
+
+/-- **the merged form violates the lower bound** on the whole window min < v < (n+1)·min -/
+theorem shiftClampMerged_below (minC nAll v : α) (h1 : minC < v) (h2 : v < (nAll + 1) * minC) :
+    shiftClampMerged minC nAll v < minC := by
+  unfold shiftClampMerged
+  rw [if_pos h1]
+  have : (nAll + 1) * minC = nAll * minC + minC := by ring
+  linarith
+
+/-- outside that window the merged form and the shift-then-clamp pair agree (why ordinary profiles do not see it) -/
+theorem shiftClampMerged_eq (minC nAll v : α) (h : ¬ (minC < v ∧ v < (nAll + 1) * minC)) :
+    shiftClampMerged minC nAll v = shiftClamp minC nAll v := by
+  unfold shiftClampMerged shiftClamp clampLo shift
+  by_cases h1 : minC < v
+  · have h2 : (nAll + 1) * minC ≤ v := not_lt.mp (fun h' => h ⟨h1, h'⟩)
+    have h3 : (nAll + 1) * minC = nAll * minC + minC := by ring
+    simp only [h1, if_true]
+    rw [if_neg (not_lt.mpr (by linarith))]
+  · simp only [h1, if_false]
+    by_cases h4 : v < minC
+    · rw [if_pos h4]
+    · rw [if_neg h4]; exact le_antisymm (not_lt.mp h4) (not_lt.mp h1)
+
+theorem setupMerged_first (cfg : Cfg α) (built : State α) (s s' : MState α) (hs : s.isSetup = false)
+    (h : setupMerged cfg built s = .ok s') :
+    ∀ e i, s'.x e i = shiftClampMerged cfg.minC cfg.nAll (applyBCInit cfg.N cfg.bc built e i) := by
+  unfold setupMerged at h
+  simp only [hs, Bool.false_eq_true, if_false] at h
+  by_cases hb : sumExceeds cfg (applyBCInit cfg.N cfg.bc built) = true
+  · simp [hb] at h
+  · simp only [hb, if_false] at h
+    cases h; exact fun e i => rfl
+
+/-- every node whose described value lies in the window is below the minimum after the merged setup -/
+theorem setupMerged_below (cfg : Cfg α) (built : State α) (s s' : MState α) (hs : s.isSetup = false)
+    (h : setupMerged cfg built s = .ok s') (e i : Nat)
+    (h1 : cfg.minC < applyBCInit cfg.N cfg.bc built e i)
+    (h2 : applyBCInit cfg.N cfg.bc built e i < (cfg.nAll + 1) * cfg.minC) :
+    s'.x e i < cfg.minC := by
+  rw [setupMerged_first cfg built s s' hs h]
+  exact shiftClampMerged_below _ _ _ h1 h2
+
+/-- concrete witness (ℚ): binary, minC = 1/100, a trace of 25/1000: the merged setup leaves 5/1000 < minC,
+the real setup leaves minC. -/
+theorem setupMerged_violates_bounds :
+    ∃ s1 s2 : MState ℚ,
+      setupMerged witCfg (fun _ _ => 25/1000) ⟨fun _ _ => 0, false⟩ = .ok s1 ∧
+      setup witCfg (fun _ _ => 25/1000) ⟨fun _ _ => 0, false⟩ = .ok s2 ∧
+      s1.x 0 0 = 5/1000 ∧ s1.x 0 0 < witCfg.minC ∧ s2.x 0 0 = witCfg.minC := by
+  have hsum : sumExceeds witCfg (applyBCInit witCfg.N witCfg.bc (fun _ _ => (25/1000 : ℚ))) = false := by
+    simp [sumExceeds, witCfg, sumE, applyBCInit, List.range, List.range.loop]; norm_num
+  refine ⟨⟨fun e i => shiftClampMerged (1/100) 2 (applyBCInit 2 witCfg.bc (fun _ _ => 25/1000) e i), true⟩,
+          ⟨fun e i => shiftClamp (1/100) 2 (applyBCInit 2 witCfg.bc (fun _ _ => 25/1000) e i), true⟩,
+          ?_, ?_, ?_, ?_, ?_⟩
+  · unfold setupMerged
+    simp only [Bool.false_eq_true, if_false, hsum]
+    rfl
+  · unfold setup
+    simp only [Bool.false_eq_true, if_false, hsum]
+    rfl
+  · simp [witCfg, applyBCInit, shiftClampMerged]; norm_num
+  · simp [witCfg, applyBCInit, shiftClampMerged]; norm_num
+  · simp [witCfg, applyBCInit, shiftClamp, clampLo, shift]; norm_num
+
+/-! #### the dependent component after setup -/
+
+theorem sumE_eq_sum (E : Nat) (x : State α) (i : Nat) : sumE E x i = ∑ e ∈ range E, x e i := by
+  unfold sumE
+  induction E with
+  | zero => simp
+  | succ n ih => rw [List.range_succ, List.foldl_append, ih, Finset.sum_range_succ]; simp
+
+theorem shiftClamp_le_add (minC nAll v : α) (h0 : 0 ≤ minC) (hn : 0 ≤ nAll) (hv : 0 ≤ v) :
+    shiftClamp minC nAll v ≤ v + minC := by
+  have hnm : 0 ≤ nAll * minC := mul_nonneg hn h0
+  unfold shiftClamp clampLo
+  split
+  · linarith
+  · unfold shift
+    split <;> linarith
+
+theorem shiftClamp_big (minC nAll v : α) (h0 : 0 ≤ minC) (hn : 0 ≤ nAll) (h : (nAll + 1) * minC ≤ v) :
+    shiftClamp minC nAll v = v - nAll * minC := by
+  have hnm : 0 ≤ nAll * minC := mul_nonneg hn h0
+  have h3 : (nAll + 1) * minC = nAll * minC + minC := by ring
+  unfold shiftClamp clampLo shift
+  by_cases h1 : minC < v
+  · simp only [h1, if_true]
+    rw [if_neg (not_lt.mpr (by linarith))]
+  · simp only [h1, if_false]
+    rw [if_neg (not_lt.mpr (by linarith))]
+    linarith [not_lt.mp h1]
+
+theorem shiftClamp_small (minC nAll v : α) (h : v < (nAll + 1) * minC) :
+    shiftClamp minC nAll v = minC := by
+  have h3 : (nAll + 1) * minC = nAll * minC + minC := by ring
+  unfold shiftClamp clampLo shift
+  by_cases h1 : minC < v
+  · simp only [h1, if_true]
+    rw [if_pos (by linarith)]
+  · simp only [h1, if_false]
+    by_cases h4 : v < minC
+    · rw [if_pos h4]
+    · rw [if_neg h4]; exact le_antisymm (not_lt.mp h1) (not_lt.mp h4)
+
+/-- **the shift by len(allElements)·min leaves room for the dependent component**: E independent elements,
+E+1 elements in all, non-negative described values summing to at most 1 at a node ⇒ the shift-clamped values sum to
+at most 1 − min. -/
+theorem shiftClamp_sum_le (E : Nat) (minC nAll : α) (v : Nat → α) (hE : nAll = (E : α) + 1) (h0 : 0 ≤ minC)
+    (hm : nAll * minC ≤ 1) (hv : ∀ e, e < E → 0 ≤ v e) (hs : ∑ e ∈ range E, v e ≤ 1) :
+    ∑ e ∈ range E, shiftClamp minC nAll (v e) ≤ 1 - minC := by
+  have hn : 0 ≤ nAll := by rw [hE]; positivity
+  by_cases hbig : ∃ e0, e0 < E ∧ (nAll + 1) * minC ≤ v e0
+  · obtain ⟨e0, he0, hb⟩ := hbig
+    have hmem : e0 ∈ range E := mem_range.mpr he0
+    rw [← Finset.add_sum_erase (range E) (fun e => shiftClamp minC nAll (v e)) hmem]
+    have h1 : shiftClamp minC nAll (v e0) = v e0 - nAll * minC := shiftClamp_big _ _ _ h0 hn hb
+    have h2 : ∑ e ∈ (range E).erase e0, shiftClamp minC nAll (v e) ≤ ∑ e ∈ (range E).erase e0, (v e + minC) := by
+      apply Finset.sum_le_sum
+      intro e he
+      have : e < E := mem_range.mp (Finset.mem_of_mem_erase he)
+      exact shiftClamp_le_add _ _ _ h0 hn (hv e this)
+    have h3 : ∑ e ∈ (range E).erase e0, (v e + minC) = ∑ e ∈ (range E).erase e0, v e + ((E : α) - 1) * minC := by
+      rw [Finset.sum_add_distrib, Finset.sum_const, Finset.card_erase_of_mem hmem, card_range, nsmul_eq_mul,
+          Nat.cast_sub (by omega : 1 ≤ E)]
+      simp
+    have h4 : v e0 + ∑ e ∈ (range E).erase e0, v e = ∑ e ∈ range E, v e :=
+      Finset.add_sum_erase (range E) v hmem
+    rw [h1]
+    have : nAll * minC = (E : α) * minC + minC := by rw [hE]; ring
+    nlinarith
+  · have hall : ∀ e ∈ range E, shiftClamp minC nAll (v e) = minC := by
+      intro e he
+      apply shiftClamp_small
+      by_contra hc
+      exact hbig ⟨e, mem_range.mp he, not_lt.mp hc⟩
+    rw [Finset.sum_congr rfl hall, Finset.sum_const, card_range, nsmul_eq_mul]
+    have : nAll * minC = (E : α) * minC + minC := by rw [hE]; ring
+    linarith
+
+theorem shiftClamp_sum_ge (E : Nat) (hE : 1 ≤ E) (minC nAll : α) (v : Nat → α) (h0 : 0 ≤ minC) :
+    minC ≤ ∑ e ∈ range E, shiftClamp minC nAll (v e) := by
+  have h1 : ∑ _e ∈ range E, minC ≤ ∑ e ∈ range E, shiftClamp minC nAll (v e) :=
+    Finset.sum_le_sum (fun e _ => shiftClamp_lower minC nAll (v e))
+  rw [Finset.sum_const, card_range, nsmul_eq_mul] at h1
+  have : (1 : α) ≤ (E : α) := by exact_mod_cast hE
+  nlinarith
+
+/-- a first `setup` that does not raise saw node sums of at most 1 -/
+theorem setup_ok_sum_le (cfg : Cfg α) (built : State α) (s s' : MState α) (hs : s.isSetup = false)
+    (h : setup cfg built s = .ok s') (i : Nat) (hi : i < cfg.N) :
+    sumE cfg.E (applyBCInit cfg.N cfg.bc built) i ≤ 1 := by
+  unfold setup at h
+  simp only [hs, Bool.false_eq_true, if_false] at h
+  by_cases hb : sumExceeds cfg (applyBCInit cfg.N cfg.bc built) = true
+  · simp [hb] at h
+  · unfold sumExceeds at hb
+    rw [List.any_eq_true] at hb
+    by_contra hc
+    exact hb ⟨i, List.mem_range.mpr hi, by simpa using not_le.mp hc⟩
+
+/-- **bounds of the dependent component after setup**: with `len(allElements) = E + 1`, non-negative described
+values and `len(allElements)·min ≤ 1`, the reference component `1 − Σ_e x_e` of every node is within
+[min, 1 − min] after the first `setup` (that the node sums are ≤ 1 is what `setup` itself checked). -/
+theorem setup_dependent_bounds (cfg : Cfg α) (built : State α) (s s' : MState α) (hs : s.isSetup = false)
+    (h : setup cfg built s = .ok s') (i : Nat) (hi : i < cfg.N) (hE : 1 ≤ cfg.E)
+    (hn : cfg.nAll = (cfg.E : α) + 1) (h0 : 0 ≤ cfg.minC) (hm : cfg.nAll * cfg.minC ≤ 1)
+    (hv : ∀ e, e < cfg.E → 0 ≤ applyBCInit cfg.N cfg.bc built e i) :
+    cfg.minC ≤ dependent cfg.E s'.x i ∧ dependent cfg.E s'.x i ≤ 1 - cfg.minC := by
+  have hsum := setup_ok_sum_le cfg built s s' hs h i hi
+  obtain ⟨_, hx⟩ := setup_first cfg built s s' hs h
+  unfold dependent
+  rw [sumE_eq_sum] at hsum ⊢
+  have hx' : ∑ e ∈ range cfg.E, s'.x e i
+      = ∑ e ∈ range cfg.E, shiftClamp cfg.minC cfg.nAll (applyBCInit cfg.N cfg.bc built e i) :=
+    Finset.sum_congr rfl (fun e _ => hx e i)
+  rw [hx']
+  have hle := shiftClamp_sum_le cfg.E cfg.minC cfg.nAll (fun e => applyBCInit cfg.N cfg.bc built e i) hn h0 hm hv hsum
+  have hge := shiftClamp_sum_ge cfg.E hE cfg.minC cfg.nAll (fun e => applyBCInit cfg.N cfg.bc built e i) h0
+  constructor <;> linarith
+
+/-! ### entering boundary conditions (round-4 strengthening)
+
+Every public entry point is a function into the four dictionaries; each helper writes its own side only. -/
+
+theorem setBoundaryCondition_left (s : BCStore α) (t : TypeArg) (ty : BCType) (ht : t.toBC? = some ty) (v : α) (k : Key) :
+    setBoundaryCondition s .left t v k = ({ s with ltype := dset s.ltype k ty, lval := dset s.lval k v }, false) := by
+  unfold setBoundaryCondition; rw [ht]
+
+theorem setBoundaryCondition_right (s : BCStore α) (t : TypeArg) (ty : BCType) (ht : t.toBC? = some ty) (v : α) (k : Key) :
+    setBoundaryCondition s .right t v k = ({ s with rtype := dset s.rtype k ty, rval := dset s.rval k v }, false) := by
+  unfold setBoundaryCondition; rw [ht]
+
+/-- an invalid type string or an invalid side raises and leaves the object as it was -/
+theorem setBoundaryCondition_invalid (s : BCStore α) (side : SideArg) (t : TypeArg) (v : α) (k : Key)
+    (h : t = .invalid ∨ side = .invalid) : setBoundaryCondition s side t v k = (s, true) := by
+  unfold setBoundaryCondition
+  rcases h with h | h
+  · subst h; rfl
+  · subst h; cases t <;> rfl
+
+/-- **setRightBoundaryCondition writes the right side only**: the (type, value) of that key on the right, nothing on
+the left, no other key. -/
+theorem setRight_writes_right (s : BCStore α) (t : TypeArg) (ty : BCType) (ht : t.toBC? = some ty) (v : α) (k : Key) :
+    (setRightBoundaryCondition s t v k).2 = false ∧
+    (setRightBoundaryCondition s t v k).1.rtype k = some ty ∧ (setRightBoundaryCondition s t v k).1.rval k = some v ∧
+    (setRightBoundaryCondition s t v k).1.ltype = s.ltype ∧ (setRightBoundaryCondition s t v k).1.lval = s.lval ∧
+    ∀ j, j ≠ k → (setRightBoundaryCondition s t v k).1.rtype j = s.rtype j ∧
+                 (setRightBoundaryCondition s t v k).1.rval j = s.rval j := by
+  unfold setRightBoundaryCondition
+  rw [setBoundaryCondition_right s t ty ht]
+  refine ⟨rfl, by simp [dset], by simp [dset], rfl, rfl, fun j hj => by simp [dset, hj]⟩
+
+/-- **setLeftBoundaryCondition writes the left side only** -/
+theorem setLeft_writes_left (s : BCStore α) (t : TypeArg) (ty : BCType) (ht : t.toBC? = some ty) (v : α) (k : Key) :
+    (setLeftBoundaryCondition s t v k).2 = false ∧
+    (setLeftBoundaryCondition s t v k).1.ltype k = some ty ∧ (setLeftBoundaryCondition s t v k).1.lval k = some v ∧
+    (setLeftBoundaryCondition s t v k).1.rtype = s.rtype ∧ (setLeftBoundaryCondition s t v k).1.rval = s.rval ∧
+    ∀ j, j ≠ k → (setLeftBoundaryCondition s t v k).1.ltype j = s.ltype j ∧
+                 (setLeftBoundaryCondition s t v k).1.lval j = s.lval j := by
+  unfold setLeftBoundaryCondition
+  rw [setBoundaryCondition_left s t ty ht]
+  refine ⟨rfl, by simp [dset], by simp [dset], rfl, rfl, fun j hj => by simp [dset, hj]⟩
+
+/-- **the helper that forwards the other side is wrong for every input**: the right dictionaries are not written
+at all and the left entry of that key is overwritten. -/
+theorem setRightSwapped_wrong (s : BCStore α) (t : TypeArg) (ty : BCType) (ht : t.toBC? = some ty) (v : α) (k : Key) :
+    (setRightBoundaryConditionSwapped s t v k).1.rtype = s.rtype ∧
+    (setRightBoundaryConditionSwapped s t v k).1.rval = s.rval ∧
+    (setRightBoundaryConditionSwapped s t v k).1.ltype k = some ty ∧
+    (setRightBoundaryConditionSwapped s t v k).1.lval k = some v := by
+  unfold setRightBoundaryConditionSwapped
+  rw [setBoundaryCondition_left s t ty ht]
+  exact ⟨rfl, rfl, by simp [dset], by simp [dset]⟩
+
+/-- concrete witness (ℚ): "Cr fixed at 3/10 on the right" entered through the swapped helper on a fresh object is read by
+the mesh code as "fixed at 3/10 on the LEFT, closed on the right"; through the real helper as entered. -/
+theorem setRightSwapped_witness :
+    let bad := toBC (setupDefaults 1 (setRightBoundaryConditionSwapped (BCStore.empty : BCStore ℚ) .comp (3/10) (some 0)).1) 0
+    let good := toBC (setupDefaults 1 (setRightBoundaryCondition (BCStore.empty : BCStore ℚ) .comp (3/10) (some 0)).1) 0
+    (bad.ltype = .comp ∧ bad.lval = 3/10 ∧ bad.rtype = .flux ∧ bad.rval = 0) ∧
+    (good.ltype = .flux ∧ good.lval = 0 ∧ good.rtype = .comp ∧ good.rval = 3/10) := by
+  simp [toBC, setupDefaults, dfill, setRightBoundaryConditionSwapped, setRightBoundaryCondition, setBoundaryCondition,
+        TypeArg.toBC?, BCStore.empty, dset]
+
+/-- **DiffusionModel.setBC with an element** writes both sides of that key and no other key -/
+theorem setBC_writes_both (s : BCStore α) (lt rt : TypeArg) (lty rty : BCType) (hl : lt.toBC? = some lty)
+    (hr : rt.toBC? = some rty) (lv rv : α) (k : Key) :
+    (setBC s lt lv rt rv k).2 = false ∧
+    (setBC s lt lv rt rv k).1.ltype k = some lty ∧ (setBC s lt lv rt rv k).1.lval k = some lv ∧
+    (setBC s lt lv rt rv k).1.rtype k = some rty ∧ (setBC s lt lv rt rv k).1.rval k = some rv ∧
+    ∀ j, j ≠ k → (setBC s lt lv rt rv k).1.ltype j = s.ltype j ∧ (setBC s lt lv rt rv k).1.lval j = s.lval j ∧
+                 (setBC s lt lv rt rv k).1.rtype j = s.rtype j ∧ (setBC s lt lv rt rv k).1.rval j = s.rval j := by
+  unfold setBC
+  rw [setBoundaryCondition_left s lt lty hl]
+  simp only [Bool.false_eq_true, if_false]
+  rw [setBoundaryCondition_right _ rt rty hr]
+  refine ⟨rfl, by simp [dset], by simp [dset], by simp [dset], by simp [dset], fun j hj => by simp [dset, hj]⟩
+
+/-- setBC with a valid left and an invalid right type raises AFTER the left entry was written -/
+theorem setBC_right_invalid (s : BCStore α) (lt : TypeArg) (lty : BCType) (hl : lt.toBC? = some lty) (lv rv : α) (k : Key) :
+    (setBC s lt lv .invalid rv k).2 = true ∧ (setBC s lt lv .invalid rv k).1.ltype k = some lty ∧
+    (setBC s lt lv .invalid rv k).1.rtype = s.rtype ∧ (setBC s lt lv .invalid rv k).1.rval = s.rval := by
+  unfold setBC
+  rw [setBoundaryCondition_left s lt lty hl]
+  simp only [Bool.false_eq_true, if_false]
+  rw [setBoundaryCondition_invalid _ _ _ _ _ (Or.inl rfl)]
+  exact ⟨rfl, by simp [dset], rfl, rfl⟩
+
+/-- reading after `setupDefaults` = reading with the defaults FLUX_BC / 0 for absent keys -/
+theorem toBC_setupDefaults (E : Nat) (s : BCStore α) (e : Nat) :
+    (toBC (setupDefaults E s) e).ltype = (toBC s e).ltype ∧ (toBC (setupDefaults E s) e).lval = (toBC s e).lval ∧
+    (toBC (setupDefaults E s) e).rtype = (toBC s e).rtype ∧ (toBC (setupDefaults E s) e).rval = (toBC s e).rval := by
+  simp only [toBC, setupDefaults, dfill]
+  by_cases he : e < E
+  · simp only [he, if_true]
+    refine ⟨?_, ?_, ?_, ?_⟩
+    · cases s.ltype (some e) <;> rfl
+    · cases s.lval (some e) <;> rfl
+    · cases s.rtype (some e) <;> rfl
+    · cases s.rval (some e) <;> rfl
+  · simp [he]
+
+/-- after `setupDefaults` every element of the model has all four entries (the `dict[e]` reads cannot fail) -/
+theorem setupDefaults_present (E : Nat) (s : BCStore α) (e : Nat) (he : e < E) :
+    ((setupDefaults E s).ltype (some e)).isSome ∧ ((setupDefaults E s).lval (some e)).isSome ∧
+    ((setupDefaults E s).rtype (some e)).isSome ∧ ((setupDefaults E s).rval (some e)).isSome := by
+  simp only [setupDefaults, dfill, he, if_true]
+  refine ⟨?_, ?_, ?_, ?_⟩
+  · cases s.ltype (some e) <;> rfl
+  · cases s.lval (some e) <;> rfl
+  · cases s.rtype (some e) <;> rfl
+  · cases s.rval (some e) <;> rfl
+
+/-- **`DiffusionModel.setBC` called without `element`** (the default `None` is passed on as the dictionary key):
+FALSE of the specification "applies to the first independent element" — whatever was entered, no element of the
+model reads it.  (`setBC_writes_both` is the partial statement: an element is given.) -/
+theorem setBC_none_ignored (s : BCStore α) (lt rt : TypeArg) (lv rv : α) (e : Nat) :
+    (toBC (setBC s lt lv rt rv none).1 e).ltype = (toBC s e).ltype ∧
+    (toBC (setBC s lt lv rt rv none).1 e).lval = (toBC s e).lval ∧
+    (toBC (setBC s lt lv rt rv none).1 e).rtype = (toBC s e).rtype ∧
+    (toBC (setBC s lt lv rt rv none).1 e).rval = (toBC s e).rval := by
+  cases lt <;> cases rt <;>
+    simp [toBC, setBC, setBoundaryCondition, TypeArg.toBC?, dset]
+
+/-! #### op sequences: an entry stays until a later call writes the same (side, key) -/
+
+theorem applyOp_frame_right (s : BCStore α) (o : BCOp α) (k : Key) (h : o.writesRight k = false) :
+    (applyOp s o).1.rtype k = s.rtype k ∧ (applyOp s o).1.rval k = s.rval k := by
+  cases o with
+  | set side t v k' =>
+    cases side <;> cases t <;>
+      simp_all [applyOp, setBoundaryCondition, TypeArg.toBC?, BCOp.writesRight, dset]
+  | setLeft t v k' =>
+    cases t <;> simp [applyOp, setLeftBoundaryCondition, setBoundaryCondition, TypeArg.toBC?]
+  | setRight t v k' =>
+    cases t <;>
+      simp_all [applyOp, setRightBoundaryCondition, setBoundaryCondition, TypeArg.toBC?, BCOp.writesRight, dset]
+  | setBC lt lv rt rv k' =>
+    cases lt <;> cases rt <;>
+      simp_all [applyOp, setBC, setBoundaryCondition, TypeArg.toBC?, BCOp.writesRight, dset]
+
+theorem applyOp_frame_left (s : BCStore α) (o : BCOp α) (k : Key) (h : o.writesLeft k = false) :
+    (applyOp s o).1.ltype k = s.ltype k ∧ (applyOp s o).1.lval k = s.lval k := by
+  cases o with
+  | set side t v k' =>
+    cases side <;> cases t <;>
+      simp_all [applyOp, setBoundaryCondition, TypeArg.toBC?, BCOp.writesLeft, dset]
+  | setLeft t v k' =>
+    cases t <;>
+      simp_all [applyOp, setLeftBoundaryCondition, setBoundaryCondition, TypeArg.toBC?, BCOp.writesLeft, dset]
+  | setRight t v k' =>
+    cases t <;> simp [applyOp, setRightBoundaryCondition, setBoundaryCondition, TypeArg.toBC?]
+  | setBC lt lv rt rv k' =>
+    cases lt <;> cases rt <;>
+      simp_all [applyOp, setBC, setBoundaryCondition, TypeArg.toBC?, BCOp.writesLeft, dset]
+
+theorem applyOps_frame_right (ops : List (BCOp α)) (s : BCStore α) (k : Key)
+    (h : ∀ o ∈ ops, o.writesRight k = false) :
+    (applyOps s ops).rtype k = s.rtype k ∧ (applyOps s ops).rval k = s.rval k := by
+  induction ops generalizing s with
+  | nil => exact ⟨rfl, rfl⟩
+  | cons o r ih =>
+    have h1 := applyOp_frame_right s o k (h o (List.mem_cons_self ..))
+    have h2 := ih (applyOp s o).1 (fun o' ho' => h o' (List.mem_cons_of_mem _ ho'))
+    simp only [applyOps, List.foldl_cons] at h2 ⊢
+    exact ⟨h2.1.trans h1.1, h2.2.trans h1.2⟩
+
+theorem applyOps_frame_left (ops : List (BCOp α)) (s : BCStore α) (k : Key)
+    (h : ∀ o ∈ ops, o.writesLeft k = false) :
+    (applyOps s ops).ltype k = s.ltype k ∧ (applyOps s ops).lval k = s.lval k := by
+  induction ops generalizing s with
+  | nil => exact ⟨rfl, rfl⟩
+  | cons o r ih =>
+    have h1 := applyOp_frame_left s o k (h o (List.mem_cons_self ..))
+    have h2 := ih (applyOp s o).1 (fun o' ho' => h o' (List.mem_cons_of_mem _ ho'))
+    simp only [applyOps, List.foldl_cons] at h2 ⊢
+    exact ⟨h2.1.trans h1.1, h2.2.trans h1.2⟩
+
+theorem applyOps_append (s : BCStore α) (a b : List (BCOp α)) :
+    applyOps s (a ++ b) = applyOps (applyOps s a) b := by
+  simp [applyOps, List.foldl_append]
+
+/-- **last write wins, right side**: in any history of entering calls, what a call wrote for (right, key) is what
+the object holds at the end, if no later call writes (right, key) — whatever came before, whatever the later calls do
+elsewhere. -/
+theorem last_write_right (before later : List (BCOp α)) (o : BCOp α) (s : BCStore α) (k : Key) (ty : BCType) (v : α)
+    (ho : ∀ s', (applyOp s' o).1.rtype k = some ty ∧ (applyOp s' o).1.rval k = some v)
+    (hl : ∀ o' ∈ later, o'.writesRight k = false) :
+    (applyOps s (before ++ o :: later)).rtype k = some ty ∧ (applyOps s (before ++ o :: later)).rval k = some v := by
+  rw [applyOps_append]
+  have h1 := ho (applyOps s before)
+  have h2 := applyOps_frame_right later (applyOp (applyOps s before) o).1 k hl
+  simp only [applyOps, List.foldl_cons] at h2 ⊢
+  exact ⟨h2.1.trans h1.1, h2.2.trans h1.2⟩
+
+theorem last_write_left (before later : List (BCOp α)) (o : BCOp α) (s : BCStore α) (k : Key) (ty : BCType) (v : α)
+    (ho : ∀ s', (applyOp s' o).1.ltype k = some ty ∧ (applyOp s' o).1.lval k = some v)
+    (hl : ∀ o' ∈ later, o'.writesLeft k = false) :
+    (applyOps s (before ++ o :: later)).ltype k = some ty ∧ (applyOps s (before ++ o :: later)).lval k = some v := by
+  rw [applyOps_append]
+  have h1 := ho (applyOps s before)
+  have h2 := applyOps_frame_left later (applyOp (applyOps s before) o).1 k hl
+  simp only [applyOps, List.foldl_cons] at h2 ⊢
+  exact ⟨h2.1.trans h1.1, h2.2.trans h1.2⟩
+
+/-- an untouched (side, key) of an object handed to the constructor or made by it stays as it was -/
+theorem initBC_none_empty (e : Nat) :
+    (toBC (initBC (none : Option (BCStore α))) e).ltype = .flux ∧ (toBC (initBC (none : Option (BCStore α))) e).lval = 0 ∧
+    (toBC (initBC (none : Option (BCStore α))) e).rtype = .flux ∧ (toBC (initBC (none : Option (BCStore α))) e).rval = 0 :=
+  ⟨rfl, rfl, rfl, rfl⟩
+
+/-! #### from the entry point to the run -/
+
+/-- **a composition condition entered through setRightBoundaryCondition pins the RIGHT node** of that element to the
+entered value (before the shift) for any fluxes, and leaves the element's left condition as it was. -/
+theorem entered_right_comp_pinned (cfg : Cfg α) (hN : 1 ≤ cfg.N) (s : BCStore α) (v : α) (e : Nat)
+    (hbc : cfg.bc = toBC (setRightBoundaryCondition s .comp v (some e)).1) :
+    Pinned cfg e (cfg.N - 1) ∧ (∀ x, applyBCInit cfg.N cfg.bc x e (cfg.N - 1) = v) ∧
+    (cfg.bc e).ltype = (toBC s e).ltype ∧ (cfg.bc e).lval = (toBC s e).lval := by
+  have ht : (cfg.bc e).rtype = .comp := by
+    rw [hbc]; simp [toBC, setRightBoundaryCondition, setBoundaryCondition, TypeArg.toBC?, dset]
+  have hv : (cfg.bc e).rval = v := by
+    rw [hbc]; simp [toBC, setRightBoundaryCondition, setBoundaryCondition, TypeArg.toBC?, dset]
+  refine ⟨pinned_right cfg hN e ht, fun x => ?_, ?_, ?_⟩
+  · rw [applyBCInit_right cfg.N cfg.bc x e ht, hv]
+  · rw [hbc]; simp [toBC, setRightBoundaryCondition, setBoundaryCondition, TypeArg.toBC?]
+  · rw [hbc]; simp [toBC, setRightBoundaryCondition, setBoundaryCondition, TypeArg.toBC?]
+
+/-- **a flux entered through setRightBoundaryCondition is written to the RIGHT end face** of that element -/
+theorem entered_right_flux_face (cfg : Cfg α) (s : BCStore α) (v : α) (e : Nat)
+    (hbc : cfg.bc = toBC (setRightBoundaryCondition s .flux v (some e)).1) (J : Nat → α) :
+    applyBC cfg.N (cfg.bc e) J cfg.N = v := by
+  have ht : (cfg.bc e).rtype = .flux := by
+    rw [hbc]; simp [toBC, setRightBoundaryCondition, setBoundaryCondition, TypeArg.toBC?, dset]
+  have hv : (cfg.bc e).rval = v := by
+    rw [hbc]; simp [toBC, setRightBoundaryCondition, setBoundaryCondition, TypeArg.toBC?, dset]
+  rw [applyBC_right_flux cfg.N _ J ht, hv]
+
+/-- **a composition condition entered through setLeftBoundaryCondition pins the LEFT node** -/
+theorem entered_left_comp_pinned (cfg : Cfg α) (hN : 2 ≤ cfg.N) (s : BCStore α) (v : α) (e : Nat)
+    (hbc : cfg.bc = toBC (setLeftBoundaryCondition s .comp v (some e)).1) :
+    Pinned cfg e 0 ∧ (∀ x, applyBCInit cfg.N cfg.bc x e 0 = v) ∧
+    (cfg.bc e).rtype = (toBC s e).rtype ∧ (cfg.bc e).rval = (toBC s e).rval := by
+  have ht : (cfg.bc e).ltype = .comp := by
+    rw [hbc]; simp [toBC, setLeftBoundaryCondition, setBoundaryCondition, TypeArg.toBC?, dset]
+  have hv : (cfg.bc e).lval = v := by
+    rw [hbc]; simp [toBC, setLeftBoundaryCondition, setBoundaryCondition, TypeArg.toBC?, dset]
+  refine ⟨pinned_left cfg hN e ht, fun x => ?_, ?_, ?_⟩
+  · rw [applyBCInit_left cfg.N hN cfg.bc x e ht, hv]
+  · rw [hbc]; simp [toBC, setLeftBoundaryCondition, setBoundaryCondition, TypeArg.toBC?]
+  · rw [hbc]; simp [toBC, setLeftBoundaryCondition, setBoundaryCondition, TypeArg.toBC?]
+
+/-- **a flux entered through setLeftBoundaryCondition is written to the LEFT end face** -/
+theorem entered_left_flux_face (cfg : Cfg α) (hN : 1 ≤ cfg.N) (s : BCStore α) (v : α) (e : Nat)
+    (hbc : cfg.bc = toBC (setLeftBoundaryCondition s .flux v (some e)).1) (J : Nat → α) :
+    applyBC cfg.N (cfg.bc e) J 0 = v := by
+  have ht : (cfg.bc e).ltype = .flux := by
+    rw [hbc]; simp [toBC, setLeftBoundaryCondition, setBoundaryCondition, TypeArg.toBC?, dset]
+  have hv : (cfg.bc e).lval = v := by
+    rw [hbc]; simp [toBC, setLeftBoundaryCondition, setBoundaryCondition, TypeArg.toBC?, dset]
+  rw [applyBC_left_flux cfg.N hN _ J ht, hv]
+
 /-! ### non-vacuity: concrete data meeting the hypothesis sets -/
 
 /-- a closed two-node, one-element configuration over ℚ -/
@@ -634,5 +1087,26 @@ example : ∃ s', setup exCfg (fun _ _ => 1/2) ⟨fun _ _ => 0, false⟩ = .ok s
     simp [sumExceeds, exCfg, sumE, applyBCInit, List.range, List.range.loop]; norm_num
   simp only [Bool.false_eq_true, if_false, this]
   exact ⟨_, rfl⟩
+
+/-- a value inside the window (min, (n+1)·min) exists -/
+example : (1/100 : ℚ) < 25/1000 ∧ (25/1000 : ℚ) < (2 + 1) * (1/100) := by norm_num
+/-- the hypotheses of `setup_dependent_bounds` / `shiftClamp_sum_le` hold for the binary example -/
+example : exCfg.nAll = (exCfg.E : ℚ) + 1 ∧ 0 ≤ exCfg.minC ∧ exCfg.nAll * exCfg.minC ≤ 1 ∧ 1 ≤ exCfg.E := by
+  simp [exCfg]; norm_num
+/-- valid type arguments exist; the helpers do not raise on them -/
+example : TypeArg.comp.toBC? = some BCType.comp ∧ TypeArg.flux.toBC? = some BCType.flux := ⟨rfl, rfl⟩
+/-- the hypothesis of `last_write_right` is met by each right-writing entry point -/
+example (s' : BCStore ℚ) : (applyOp s' (.setRight .comp (3/10) (some 0))).1.rtype (some 0) = some .comp ∧
+    (applyOp s' (.setRight .comp (3/10) (some 0))).1.rval (some 0) = some (3/10) := by
+  simp [applyOp, setRightBoundaryCondition, setBoundaryCondition, TypeArg.toBC?, dset]
+example (s' : BCStore ℚ) : (applyOp s' (.setBC .flux 0 .flux (1/7) (some 1))).1.rtype (some 1) = some .flux ∧
+    (applyOp s' (.setBC .flux 0 .flux (1/7) (some 1))).1.rval (some 1) = some (1/7) := by
+  simp [applyOp, setBC, setBoundaryCondition, TypeArg.toBC?, dset]
+example : (BCOp.setLeft .comp (1/5 : ℚ) (some 0)).writesRight (some 0) = false := rfl
+/-- a configuration whose conditions come from the entry points -/
+example : ∃ cfg : Cfg ℚ, 1 ≤ cfg.N ∧
+    cfg.bc = toBC (setRightBoundaryCondition (BCStore.empty : BCStore ℚ) .comp (3/10) (some 0)).1 :=
+  ⟨{ exCfg with bc := toBC (setRightBoundaryCondition (BCStore.empty : BCStore ℚ) .comp (3/10) (some 0)).1 },
+   by simp [exCfg], rfl⟩
 
 end KawinV.Props.C04
